@@ -55,7 +55,7 @@ var Contexts = []Context{
 	{Name: "return-type", Pre: Prelude + "Die Funktion g gibt ", Post: " zurück, macht:\n\tVerlasse die Funktion.\nUnd kann so benutzt werden:\n\t\"g\"\n"},
 	{Name: "struct-field", Pre: Prelude + "Wir nennen die Kombination aus\n\tder Zahl a mit Standardwert 0,\n\t", Post: "\neinen Punkt, und erstellen sie so:\n\t\"ein Punkt\"\n", Indent: "\t"},
 	{Name: "struct-alias", Pre: Prelude + "Wir nennen die Kombination aus\n\tder Zahl a mit Standardwert 0,\neinen Punkt, und erstellen sie so:\n\t", Indent: "\t"},
-	{Name: "alias-pattern", Pre: Prelude + "Der Alias \"", Post: "\" steht für die Funktion f.\n"},
+	{Name: "alias-pattern", Pre: Prelude + "Der Alias \"", Post: "\" steht für die Funktion f.\nDie Zahl nachher ist x plus 1.\n"},
 	{Name: "alias-target", Pre: Prelude + "Der Alias \"h <a>\" steht für ", Post: ".\n"},
 	{Name: "generic-func", Pre: Prelude + "Die generische Funktion g mit dem Parameter p vom Typ T, gibt ", Post: " zurück, macht:\n\tGib p zurück.\nUnd kann so benutzt werden:\n\t\"g <p>\"\nSchreibe (g 1).\n"},
 	{Name: "prelude+Duden", Pre: PreludeDuden, Sentence: true},
